@@ -1,27 +1,42 @@
-HOOK_COMMITS = []
+"""MANIFEST content is collected from the property modules: each lib/props/cXX.py with READY = True and a MANIFEST dict
+{technique, text, note, category?} is claimed; the others are listed under not_applicable with their reason."""
+import importlib, os, sys, subprocess
+HERE = os.path.dirname(os.path.abspath(__file__))
+sys.path.insert(0, HERE)
 NOTES = ("Machine-checked proof (Coq 8.16.1) of each property on an executable Gallina model; the model is tied to /repo's "
          "working tree on every run by correspondence (Go harness vs in-Coq vm_compute evaluation of the model and of the "
          "declarative property oracle) and, where present, by translators that regenerate parts of the model. See DESIGN.md.")
-ENGINES = [
- {"name": "coq-core", "path": "coq/", "serves_properties": [], "kind_free_text": "Coq development: models, proofs, Properties/Cxx.v, Corr/Cxx.v evaluators"},
- {"name": "harness", "path": "harness/", "serves_properties": [], "kind_free_text": "Go drivers running the real lisk-engine code (built with -tags verif against /repo's working tree)"},
- {"name": "check", "path": "check + lib/", "serves_properties": [], "kind_free_text": "Python orchestration: build, audit assumptions, run harness, evaluate cases in Coq, known-findings filter, evidence"},
-]
 ALL = ["C%02d" % i for i in range(1, 21)]
-CHECKS = [
- {"id": "C07",
-  "technique": "Coq proof on Gallina model + differential correspondence (exhaustive small range + random) evaluated in Coq",
-  "text": "Theorems (for all headers, unbounded): contradiction is symmetric, equals the LIP-0014 'neither is a legitimate successor' "
-          "characterisation, never holds across generators, flags double forging / lower-maxHeightPrevoted chain / violated "
-          "maxHeightGenerated, never flags a protocol-following generator's history; fork-choice classification equals the "
-          "declarative LIP-0014 case list and IsDifferentChain is the strict lexicographic order on (maxHeightPrevoted,height). "
-          "The model is tied to the Go code by running both on every header pair over a small range exhaustively plus random "
-          "uint32 pairs and fork-choice observations; every implementation answer is also checked against the declarative oracle.",
-  "note": "Trusted: Coq kernel + vm_compute, the hand-written model's fidelity as sampled by the correspondence, Go harness and "
-          "Python glue. The 'contradicting header inside the window is always flagged' clause is proved with the C02 vote model (see C02)."},
-]
-claimed = {c["id"] for c in CHECKS}
-for e in ENGINES:
-    e["serves_properties"] = sorted(claimed)
-NOT_APPLICABLE = [{"property_id": p, "reason": "not yet claimed: machinery under construction in this round (see DESIGN.md §9 build order)"}
-                  for p in ALL if p not in claimed]
+
+
+def hook_commits():
+    try:
+        out = subprocess.run(["git", "-C", "/repo", "log", "--format=%H %s"], stdout=subprocess.PIPE, text=True).stdout
+        return [l.split()[0] for l in out.splitlines() if " verif hook" in l or l.split(" ", 1)[1].startswith("hook:")]
+    except Exception:
+        return []
+
+
+def build():
+    checks, na = [], []
+    for p in ALL:
+        try:
+            m = importlib.import_module("props." + p.lower())
+        except ModuleNotFoundError:
+            m = None
+        if m is not None and getattr(m, "READY", False):
+            d = dict(m.MANIFEST)
+            d["id"] = p
+            d.setdefault("category", getattr(m, "LEVEL", "proof"))
+            checks.append(d)
+        else:
+            reason = getattr(m, "NOT_READY_REASON", None) if m else None
+            na.append({"property_id": p, "reason": reason or "not claimed yet: machinery for this property is still under construction (DESIGN.md §9)"})
+    claimed = sorted(c["id"] for c in checks)
+    engines = [
+     {"name": "coq-core", "path": "coq/", "serves_properties": claimed, "kind_free_text": "Coq development: models, proofs, Properties/Cxx.v theorems, Corr/Cxx.v case evaluators"},
+     {"name": "harness", "path": "harness/", "serves_properties": claimed, "kind_free_text": "Go drivers running the real lisk-engine code (built with -tags verif against /repo's working tree)"},
+     {"name": "translate", "path": "translate/", "serves_properties": claimed, "kind_free_text": "Go (go/ast) translators regenerating coq/Gen/*.v from /repo sources on every run"},
+     {"name": "check", "path": "check + lib/", "serves_properties": claimed, "kind_free_text": "Python orchestration: build, assumption audit, harness runs, in-Coq case evaluation, known-findings filter, evidence"},
+    ]
+    return checks, na, engines, hook_commits(), NOTES
